@@ -763,6 +763,13 @@ func evalFunctionCall(node *CallExpression, env *Environment) Object {
 		return newError("the function is not allowed in an condition expression; function: " + funcObj.Name)
 	}
 
+	for _, argument := range node.Arguments {
+		if isConditionExpression(argument) {
+			// 'attribute_exists(a = b)': the operands of a function are operands, not conditions
+			return newError(syntaxErrorTemplate, argument.String())
+		}
+	}
+
 	args := evalExpressions(node.Arguments, env)
 	if len(args) == 1 && isError(args[0]) {
 		return args[0]
